@@ -6,7 +6,7 @@ Copyright 2020, 2021 William W. Kimball, Jr. MBA MSIS
 """
 import sys
 from os.path import basename
-from typing import Any, Dict, List, Set, Tuple, Union
+from typing import Any, Dict, List, Optional, Set, Tuple, Union
 import json
 from io import StringIO
 from pathlib import Path
@@ -635,10 +635,27 @@ class Merger:
                 # re-definitions.
                 Anchors.replace_anchor(self.data, lhs_anchor, rhs_anchor)
 
+    @staticmethod
+    def _replace_merge_target(
+        lhs: Any, merged_data: Any, node_coord: Optional[NodeCoords]
+    ) -> None:
+        """
+        Store a merge result which is not the (updated) target node itself.
+
+        The RIGHT merge modes replace the target rather than update it; at any
+        merge point below the document root, the replacement must be written
+        to the target's parent.
+        """
+        if (merged_data is not lhs
+            and node_coord is not None
+            and node_coord.parent is not None
+        ):
+            node_coord.parent[node_coord.parentref] = merged_data
+
     def _insert_dict(
         self, insert_at: YAMLPath,
         lhs: Union[CommentedMap, CommentedSeq, CommentedSet],
-        rhs: CommentedMap
+        rhs: CommentedMap, node_coord: Optional[NodeCoords] = None
     ) -> bool:
         """Insert an RHS dict merge result into the LHS document."""
         merge_performed = False
@@ -696,12 +713,14 @@ class Merger:
 
         if insert_at.is_root:
             self.data = merged_data
+        else:
+            self._replace_merge_target(lhs, merged_data, node_coord)
         return merge_performed
 
     def _insert_list(
         self, insert_at: YAMLPath,
         lhs: Union[CommentedMap, CommentedSeq, CommentedSet],
-        rhs: CommentedSeq
+        rhs: CommentedSeq, node_coord: Optional[NodeCoords] = None
     ) -> bool:
         """Insert an RHS list merge result into the LHS document."""
         merge_performed = False
@@ -741,12 +760,14 @@ class Merger:
 
         if insert_at.is_root:
             self.data = merged_data
+        else:
+            self._replace_merge_target(lhs, merged_data, node_coord)
         return merge_performed
 
     def _insert_set(
         self, insert_at: YAMLPath,
         lhs: Union[CommentedMap, CommentedSeq, CommentedSet],
-        rhs: CommentedSet
+        rhs: CommentedSet, node_coord: Optional[NodeCoords] = None
     ) -> bool:
         """Insert an RHS list merge result into the LHS document."""
         merge_performed = False
@@ -791,6 +812,8 @@ class Merger:
 
         if insert_at.is_root:
             self.data = merged_data
+        else:
+            self._replace_merge_target(lhs, merged_data, node_coord)
         return merge_performed
 
     def _insert_scalar(
@@ -908,15 +931,15 @@ class Merger:
                 merge_performed = True
             elif isinstance(rhs, CommentedMap):
                 merge_performed = self._insert_dict(
-                    insert_at, target_node, rhs)
+                    insert_at, target_node, rhs, node_coord)
             elif isinstance(rhs, CommentedSeq):
                 # The RHS document root is a list
                 merge_performed = self._insert_list(
-                    insert_at, target_node, rhs)
+                    insert_at, target_node, rhs, node_coord)
             elif isinstance(rhs, CommentedSet):
                 # The RHS document is a set
                 merge_performed = self._insert_set(
-                    insert_at, target_node, rhs)
+                    insert_at, target_node, rhs, node_coord)
             else:
                 # The RHS document root is a Scalar value
                 merge_performed = self._insert_scalar(
